@@ -25,6 +25,9 @@ from .ir import Tok as TokItem
 LOC_KEYS = ("lineno", "col_offset", "end_lineno", "end_col_offset")
 LOC_EXPECT = {"lineno": ("start", 0), "col_offset": ("start", 1), "end_lineno": ("end", 0),
               "end_col_offset": ("end", 1)}
+# functions whose contract orders their location sources (confirmed by reading): the word assembler receives the tree built so
+# far and the piece that follows it, and spans run from the former's start to the latter's end
+ORDERED_SPAN_IDIOMS = {"Parser._append_node_or_token"}
 MAX_DEPTH = 12
 
 
@@ -1414,7 +1417,7 @@ class Interp:
     def call_function(self, qual: str, fn: ast.FunctionDef, selfv, pargs, kwargs, kw_open, star, e, fr: Frame) -> V:
         if fr.depth > MAX_DEPTH:
             self.summary_uses[qual] = self.summary_uses.get(qual, 0) + 1
-            return TOP
+            return self.annotation_summary(fn)
         a = fn.args
         params = [p.arg for p in a.posonlyargs + a.args]
         env: dict[str, V] = {}
@@ -1440,6 +1443,10 @@ class Interp:
                     self.emit("S0-call-arity", f"{fr.sitekey}:{qual}", "fail", fr.where,
                               f"call of {qual} does not supply parameter `{p}`")
                     env[p] = TOP
+        # an argument about which nothing is known takes what the parameter's annotation says about None-ness
+        for prm in a.posonlyargs + a.args:
+            if isinstance(env.get(prm.arg), _Top) and prm.annotation is not None:
+                env[prm.arg] = self.annotation_value(prm.annotation)
         extra_pos = pargs[len(params):]
         if a.vararg:
             env[a.vararg.arg] = TupleV(tuple(extra_pos)) if not star else ListV(mk_union(extra_pos + [s[1] for s in star]))
@@ -1477,7 +1484,7 @@ class Interp:
             return self.memo[memo_key]
         if (qual, memo_key) in self.in_progress:
             self.summary_uses[qual] = self.summary_uses.get(qual, 0) + 1
-            return TOP
+            return self.annotation_summary(fn)
         self.in_progress.add((qual, memo_key))
         sub = Frame(qual, f"{self.file_of(qual)}:{fn.lineno}", fr, fn=qual, root=fn)
         try:
@@ -1495,6 +1502,22 @@ class Interp:
         if memo_key is not None:
             self.memo[memo_key] = res
         return res
+
+    def annotation_summary(self, fn: ast.FunctionDef) -> V:
+        """What a call that is not inlined (recursion, depth bound) may return, as far as its annotation says: only the
+        None-ness of `ast.AST | None` style annotations is used; anything else is unknown."""
+        return self.annotation_value(fn.returns) if fn.returns is not None else TOP
+
+    def annotation_value(self, ann: ast.expr) -> V:
+        txt = norm_stmt(ann)
+        parts = [p.strip() for p in txt.split("|")]
+        if len(parts) == 2 and "None" in parts:
+            other = [p for p in parts if p != "None"][0]
+            if other in ("ast.AST", "ast.expr"):
+                return mk_union([Node("expr", located=True), NONE])
+        if txt in ("ast.AST", "ast.expr"):
+            return Node("expr", located=True)
+        return TOP
 
     def file_of(self, qual: str) -> str:
         return repo.TOKENIZE if qual.startswith("TokenInfo.") else repo.SUBHEADER
@@ -1588,6 +1611,16 @@ class Interp:
             return True
         if isinstance(st, ast.Assert):
             self.eval(st.test, env, fr)
+            t = st.test
+            if isinstance(t, ast.Compare) and len(t.ops) == 1 and isinstance(t.ops[0], ast.IsNot) and isinstance(t.left, ast.Name) \
+                    and isinstance(t.comparators[0], ast.Constant) and t.comparators[0].value is None:
+                v = env.get(t.left.id)
+                if v is not None and not isinstance(v, _Top):
+                    if any(isinstance(m, NoneV) for m in members(v)):
+                        self.emit("S0-assert-none", f"{fr.sitekey}:{norm_stmt(st)[:60]}", "fail", fr.where,
+                                  f"`{norm_stmt(st)}` can fail: on this call path `{t.left.id}` can be None (AssertionError escapes)")
+                    else:
+                        self.emit("S0-assert-none", f"{fr.sitekey}:{norm_stmt(st)[:60]}", "ok", fr.where)
             new = self.refine(st.test, env, True, fr)
             env.clear()
             env.update(new)
@@ -2014,6 +2047,26 @@ class Interp:
                           f"{k1} comes from {sorted(perkey[k1])} but {k2} from {sorted(perkey[k2])}")
             elif bases[half]:
                 self.emit("A5-loc-pair", f"{site}.{half}", "ok" if decided else "undecided", where)
+
+        # order: a span whose two ends come from different sources needs a reason why start <= end
+        s_b, e_b = bases["start"], bases["end"]
+        if decided and s_b and e_b and s_b != e_b:
+            fn = site.split(":", 1)[0]
+
+            def first(x):
+                return x.endswith("[0]")
+
+            def last_or_first(x):
+                return x.endswith("[-1]") or x.endswith("[0]")
+
+            ok = s_b == {"peek()"} or \
+                (all(first(x) or not x.endswith("]") for x in s_b) and all(last_or_first(x) or not x.endswith("]") for x in e_b)
+                 and {x.rsplit("[", 1)[0] for x in s_b if x.endswith("]")} == {x.rsplit("[", 1)[0] for x in e_b if x.endswith("]")}
+                 and {x for x in s_b if not x.endswith("]")} == {x for x in e_b if not x.endswith("]")}) or \
+                fn in ORDERED_SPAN_IDIOMS
+            self.emit("A5-loc-order", f"{site}", "ok" if ok else "fail", where,
+                      "" if ok else f"the node starts where {sorted(s_b)} starts and ends where {sorted(e_b)} ends; nothing says the first "
+                                    f"precedes the second (an inverted range is rejected by compile())")
 
     # field kind / list / optional / context obligations -------------------------------------
     def check_field(self, cls: str, f: asdl.Field, v: V, key: str, fr: Frame, where: str = ""):
